@@ -1,4 +1,83 @@
-(* temporary *)
-From PGF Require Import Base.Prelude Model.Scoring.
-Theorem C05_placeholder : True. Proof. exact I. Qed.
-Print Assumptions C05_placeholder.
+(* C05 — a peptide supports only the group holding all its proteins; score = best PEP.
+   Statements only.  [Inv s] is C20's index invariant (holds in every reachable state). *)
+From PGF Require Import Base.Prelude Base.PyStr Base.StableSort Model.Fdr Model.Results Model.ProteinGroups
+  Model.Scoring Model.Competition Proofs.ProteinGroupsProofs Proofs.ResultsProofs Proofs.ScoringProofs Proofs.CompetitionProofs.
+
+(* shared peptides discarded: a peptide is evidence for group k exactly when it has proteins, all of which
+   are indexed to group k; otherwise it is ignored *)
+Theorem C05_evidence_iff_all_in_one_group : forall c md5 s suppress l infos peps,
+  sc_razor c = false -> sc_shared c = false -> Inv s ->
+  collect c md5 s suppress l = Ok (infos, peps) ->
+  forall k x, k < length (groups s) ->
+    (In x (nth k infos []) <->
+     exists e sc ps, In (e, (sc, ps)) l /\ x = (sc, e, ps) /\
+                     valid s = true /\ ps <> [] /\ forall p, In p ps -> lookup (index s) p = Some k).
+Proof. exact evidence_iff_all_in_one_group. Qed.
+Print Assumptions C05_evidence_iff_all_in_one_group.
+
+(* and all the proteins recorded with an evidence entry really belong to that group (discard or razor) *)
+Theorem C05_evidence_proteins_in_group : forall c md5 s suppress l infos peps,
+  sc_shared c = false -> Inv s ->
+  collect c md5 s suppress l = Ok (infos, peps) ->
+  forall k sc e ps, k < length (groups s) -> In (sc, e, ps) (nth k infos []) ->
+    exists g, nth_error (groups s) k = Some g /\ forall p, In p ps -> In p g.
+Proof. exact evidence_proteins_in_group. Qed.
+Print Assumptions C05_evidence_proteins_in_group.
+
+(* razor: the peptide is first reduced to one of its own proteins ... *)
+Theorem C05_razor_single_protein : forall l md5 ps out,
+  retain_most_observed l md5 ps = Ok out -> exists p, out = [p] /\ In p ps.
+Proof. exact razor_single_protein. Qed.
+Print Assumptions C05_razor_single_protein.
+
+(* ... so it supports at most one group either way *)
+Theorem C05_at_most_one_group : forall c md5 s suppress l infos peps,
+  sc_shared c = false -> Inv s -> NoDup (map fst l) ->
+  collect c md5 s suppress l = Ok (infos, peps) ->
+  forall k k' x x', k < length (groups s) -> k' < length (groups s) ->
+    In x (nth k infos []) -> In x' (nth k' infos []) -> pi_peptide x = pi_peptide x' -> k = k'.
+Proof. exact at_most_one_group. Qed.
+Print Assumptions C05_at_most_one_group.
+
+(* a group's best-PEP score is f(smallest PEP among its evidence), f = -log10(. + eps) any antitone function *)
+Theorem C05_best_pep_score : forall f, (forall x y, (x <= y)%Q -> (f y <= f x)%Q) ->
+  forall infos, infos <> [] ->
+  exists i, In i infos /\ (forall j, In j infos -> (pi_pep i <= pi_pep j)%Q) /\
+            (best_pep_score f infos == f (pi_pep i))%Q.
+Proof. exact best_pep_at_min_pep. Qed.
+Print Assumptions C05_best_pep_score.
+
+(* additional evidence never lowers a best-PEP score (any f) *)
+Theorem C05_best_pep_monotone : forall f infos infos',
+  infos <> [] -> incl infos infos' -> (best_pep_score f infos <= best_pep_score f infos')%Q.
+Proof. exact best_pep_monotone. Qed.
+Print Assumptions C05_best_pep_monotone.
+
+(* multiplied-PEP variant: the summands are one per distinct peptide, each that peptide's lowest PEP *)
+Theorem C05_mult_pep_structure : forall infos,
+  let fo := first_occ (isort pinfo_leb infos) [] in
+  mult_pep_terms infos = map pi_pep fo /\
+  NoDup (map pi_peptide fo) /\
+  (forall i, In i fo -> In i infos) /\
+  (forall j, In j infos -> exists i, In i fo /\ pi_peptide i = pi_peptide j /\ (pi_pep i <= pi_pep j)%Q).
+Proof. exact mult_pep_structure. Qed.
+Print Assumptions C05_mult_pep_structure.
+
+(* a group without evidence gets the sentinel score and is not ranked (it never enters the competition order) *)
+Theorem C05_no_evidence_sentinel : forall f, best_pep_score f [] = minus100.
+Proof. exact best_pep_no_evidence. Qed.
+Print Assumptions C05_no_evidence_sentinel.
+
+Theorem C05_no_evidence_not_ranked : forall st seen es pi1 e,
+  In e (ranked st seen es pi1) -> e_infos e <> [].
+Proof. exact ranked_has_infos. Qed.
+Print Assumptions C05_no_evidence_not_ranked.
+
+(* non-vacuity: P1 and P2 in different groups; peptide AAAK -> [P1] is evidence for group 0, the shared
+   peptide LLLK -> [P1; P2] is ignored *)
+Example C05_witness :
+  let s := create_index (of_list [[s2l "P1"]; [s2l "P2"]]) in
+  collect {| sc_razor := false; sc_shared := false; sc_counts := None |} (fun _ => []) s false
+          [(s2l "AAAK", ((1#100)%Q, [s2l "P1"])); (s2l "LLLK", ((1#100)%Q, [s2l "P1"; s2l "P2"]))]
+  = Ok ([[((1#100)%Q, s2l "AAAK", [s2l "P1"])]; []], [(1#100)%Q]).
+Proof. vm_compute. reflexivity. Qed.
